@@ -21,6 +21,8 @@ deriving Repr, DecidableEq, Inhabited
 def WFrame.ok (f : WFrame) : Prop :=
   (f.tk ≤ 3 ∧ f.ty < 64 * 256 ^ (2 ^ f.tk - 1)) ∧ (f.lk ≤ 3 ∧ f.payload.length < 64 * 256 ^ (2 ^ f.lk - 1))
 
+instance (f : WFrame) : Decidable f.ok := by unfold WFrame.ok; infer_instance
+
 def WFrame.enc (f : WFrame) : List Nat :=
   encVarintK f.tk f.ty ++ (encVarintK f.lk f.payload.length ++ f.payload)
 
